@@ -10,6 +10,18 @@ CLAIMED = {
    text="Unbounded theorems (33) about definitions that tools/c2g regenerates from /repo's C source on every run: 128-bit add/sub/shift/bit/compare/logic = arithmetic mod 2^128 for all operands and all shift counts 0 <= s < 2^31, tree bias = closest member of its interval and intervals partition, lower-bound and range search correct for every sorted array, length and initial guess (loop invariant + fuel bound), integer powers = base^exp mod word size, log2/round-up macros (256-entry table decided entry by entry). A code change alters the generated definitions, so the kernel re-checks the theorems against what the code says now; translator validation runs the extracted generated functions against the compiled C functions on ~39k grid/random cases and an independent oracle judges every C output.",
    note="Trusted: Coq kernel, the c2g translator + clang AST (validated differentially on every run), extraction, harness. Assumes parameters in the range of their C types, distinct pointer parameters do not alias, signed overflow wraps (intpow squaring is UB in C; harness built with -fwrapv). sc_bsearch_range's comparison callback is abstracted as two functions consistent with a sorted integer array.",
    technique="Rocq proof over translator-generated Gallina (T1) + differential translator validation"),
+ "C03": dict(
+   text="Theorems (unbounded in P, inputs, operation): the global tree model of sc_reduce/sc_allreduce - built on the GENERATED sc_search_bias/maxlevel macro - equals the fold of the operands in rank order for every associative operation (no commutativity needed), at every node of the balanced tree, and never mentions the target; hence one association for all targets and ranks. Tie T3: the real code runs on the simulated MPI under 8 scheduler adversaries; every rank's trace is co-simulated against the extracted per-rank program (symbolic payloads evaluated with the concrete operation, compared bit for bit with what was sent/returned), the model's tree and an independent balanced-tree oracle are compared with the bits of every rank, and the same data is reduced to several targets / all-reduced under different schedules with bitwise comparison.",
+   note="Trusted: Coq kernel, c2g (bias, log2 macro, constants), extraction, simmpi and its trace, Python IEEE arithmetic for float/double evaluation. Partial: the step from the per-rank programs to the global tree model under all schedules is validated by co-simulation, not proved (receives name their source, so matching is deterministic); long double not exercised; IEEE '+' commutativity is used implicitly only in that the model's orientation is fixed (rank order), so it is not needed any more after the repair of sc_reduce.",
+   technique="Rocq proof of the tree model + per-rank trace co-simulation on a simulated MPI"),
+ "C04": dict(
+   text="Theorems (unbounded): for every P, block type and subgroup (g, base) the global dataflow model of sc_allgather_recursive/alltoall leaves blocks base..base+g-1 in order in every member's buffer and touches nothing else (strong induction over the bisection with odd halves), every posted receive has exactly one matching send with equal tag, slot range and size, and no rank posts two receives for the same (source, tag) in a step (deterministic matching, so completion order is irrelevant). Tie T3: the real sc_allgather and the subgroup routine run on the simulated MPI under 8 adversaries; every rank's trace is co-simulated against the extracted per-rank program (peers, tags, payload bytes, final buffer); an independent oracle judges every receive buffer; deadlock, leftover messages and memory balance are checked.",
+   note="Trusted: Coq kernel, generated constants (tags, SC_ALLGATHER_ALLTOALL_MAX), extraction, simmpi. Partial: the step from per-rank programs to the global model under all interleavings is validated by co-simulation, not proved; MPI's delivery guarantees are assumed.",
+   technique="Rocq proof of the dataflow model + per-rank trace co-simulation on a simulated MPI"),
+ "C13": dict(
+   text="Theorems (unbounded): the record combination GENERATED from sc_stats_mpifunc computes, for EVERY binary reduction tree over EVERY permutation of the ranks' records, the total count, exact sums and - when a sample exists - the minimum/maximum over all contributing ranks with the lowest rank attaining each; the specification determines every reported number (so all ranks agree whatever tree each result came from); operands without samples and clean variables are neutral in both operand positions; local records describe their samples. Tie: T1 (combine regenerated from source) + T3: real sc_stats_compute on the simulated MPI whose Allreduce applies the user op along random trees over random permutations; the packed records (from the trace) are folded by the extracted model and compared with every rank's result; an independent oracle computes the statistics of the union including mean/variance/standard errors bit for bit.",
+   note="Trusted: Coq kernel, c2g (doubles read as exact numbers; the runs use integer-valued samples so all sums are exact in binary64), extraction, simmpi. Sums of general doubles agree only up to rounding of another order and are not judged bitwise.",
+   technique="Rocq proof over translator-generated Gallina (T1) + simulated-MPI correspondence with adversarial reduction trees"),
 }
 
 NOT_YET = "machinery for this property is not built yet in this revision (planned, see DESIGN.md section 6); no claim is made"
